@@ -125,8 +125,8 @@ func allSpecs() []*HarnessSpec {
 			Quick: []Grid{{"n": {1, 63, 64, 65, 128}}},
 			Note:  "typed getters index Leaves.Bytes directly while Get goes through the rebuilt presence bitmap of 0.5.10 streams"},
 		{Name: "k_enc_type", Pkg: "encode", Property: "C15", Witness: 1,
-			Quick:    []Grid{{"type": rng(0, 4), "big": {0, 1}, "junk": {0, 2}}},
-			Thorough: []Grid{{"type": rng(0, 4), "big": {0, 1}, "junk": {0, 1, 2, 3}}},
+			Quick:    []Grid{{"type": rng(0, 4), "big": {0, 1}, "junk": {0, 2}, "both": {0, 1}}},
+			Thorough: []Grid{{"type": rng(0, 4), "big": {0, 1}, "junk": {0, 1, 2, 3}, "both": {0, 1}}},
 			Note:     "TypeEncoder wrapper logic under the encoding/binary layout model: four sizes agree with len(Encode), round trip with trailing bytes, scalars/arrays/structs with alignment padding, both byte orders"},
 		{Name: "k_innerbm", Pkg: "trie", Property: "C19", Witness: 1,
 			Quick:    []Grid{{"size": {17}, "from": rng(0, 175)}, {"size": {257}, "from": {0, 1, 63, 64, 65, 127, 128, 190, 191}}},
@@ -364,10 +364,26 @@ func apiSpecs() []*HarnessSpec {
 	out = append(out, &HarnessSpec{Name: "l2_residue", Pkg: "trie", Property: "C19", Witness: 1,
 		Quick: []Grid{{"L": {1}, "na": {2}, "lensa": {3}, "opta": {9}, "nb": {1}, "lensb": {1}, "optb": {16}, "nops": {2}, "seq": {1, 4, 6, 9, 12}, "lq": {1}}},
 		Note:  "String() after Unmarshal/Reset sequences on one instance (with renderings in between) equals the rendering of a fresh instance that loaded only the last stream"})
+	out = append(out, &HarnessSpec{Name: "l2_reuse14", Pkg: "trie", Property: "C14", Witness: 1,
+		Quick: []Grid{{"L": {1}, "enc": {3, 4, 5, 6}, "na": {1, 2}, "lensa": {1, 3}, "opta": {16}, "nb": {1, 2}, "lensb": {1, 3}, "optb": {16}, "lq": {1}, "viaload": {0, 1}},
+			{"L": {1}, "enc": {5}, "na": {2}, "lensa": {3}, "opta": {9, 0}, "nb": {2}, "lensb": {3}, "optb": {9, 2}, "lq": {1}, "viaload": {0}}},
+		Thorough: []Grid{{"L": {2}, "enc": {3, 4, 5, 6}, "na": {1, 2}, "lensa": rng(0, 8), "opta": {16, 9}, "nb": {1, 2}, "lensb": rng(0, 8), "optb": {16, 9}, "lq": {1, 2}, "viaload": {0, 1}}},
+		Note: "typed getters agree with Get on an instance that already answered typed and untyped queries for data A and was then loaded with data B by a direct Unmarshal (no Reset)"})
+	out = append(out, &HarnessSpec{Name: "l2_legacy0509", Pkg: "trie", Property: "C18", Witness: 1,
+		Quick: []Grid{{"n": {0, 1}, "L": {2}, "lens": {0, 1, 2}, "variant": {0, 1}, "hdr": {0, 2}},
+			{"n": {2}, "L": {1}, "lens": rng(0, 3), "variant": {0, 1}, "hdr": {0}}},
+		Note:  "KeyCnt (and every answer) is preserved when the equivalent legacy stream is loaded (writer model G.1)"})
+	out = append(out, &HarnessSpec{Name: "l3_legacy", Pkg: "trie", Property: "C18", Witness: 1,
+		Quick: []Grid{{"skel": {0, 1, 8, 101, 110, 303}, "model": {0, 1}, "variant": {1}, "opt": {0}, "lq": {0}}},
+		Note:  "legacy-loaded skeletons: KeyCnt = n and Stat equal to the index built by the current code (0.5.10 layout)"})
+	out = append(out, &HarnessSpec{Name: "l3_size_rel", Pkg: "trie", Property: "C17", Witness: 1,
+		Quick:    []Grid{{"family": {0, 1, 2, 3}, "n": {64}, "plen": {1, 200, 5000}}, {"family": {5}, "n": {60}, "plen": {127, 200}}},
+		Thorough: []Grid{{"family": {0, 1, 2, 3, 5}, "n": {16, 64, 256}, "plen": {1, 64, 127, 128, 200, 5000, 16000}}},
+		Note:     "relational clause on key sets with many inner steps: a concrete family K versus P+K (|P| up to 5000): the size measure differs by <= 24 (real sizes by <= 16 on the native replays)"})
 	// ---- C07 ----
 	out = append(out, &HarnessSpec{Name: "ver_gate", Pkg: "trie", Property: "C07", Witness: 2,
-		Quick:    []Grid{{"lv": rng(0, 6)}},
-		Thorough: []Grid{{"lv": rng(0, 9)}, {"lv": {16}}},
+		Quick:    []Grid{{"lv": rng(0, 6)}, {"pre": {1, 2, 3, 4, 5}, "lv": {1, 2, 3, 4}, "opt": {16, 9}}},
+		Thorough: []Grid{{"lv": rng(0, 9)}, {"lv": {16}}, {"pre": {1, 2, 3, 4, 5}, "lv": rng(1, 7), "opt": {16, 9, 2}}, {"pre": {5}, "lv": {10}}},
 		Note:     "the version bytes of the header are symbolic (every string of the listed lengths): real ReadHeader/verStr/vers.IsCompatible/semver.Parse on the symbolic string; not rejected with ErrIncompatible => one of the six compatible versions (+build metadata)"})
 	out = append(out, &HarnessSpec{Name: "trunc", Pkg: "trie", Property: "C07", Witness: 1,
 		Quick:    []Grid{{"layout": {0, 1}, "opt": {16, 9}, "sec": {0}, "cut": rng(-6, 40)}, {"layout": {3, 4}, "opt": {16}, "sec": {0, 1, 2}, "cut": rng(-6, 40)}},
@@ -384,20 +400,25 @@ func apiSpecs() []*HarnessSpec {
 		Quick: []Grid{{"n": {0, 1}, "L": {2}, "lens": {0, 1, 2}, "opt": {16, 9}, "enc": {1}, "loaded": {0, 1}, "lq": {1}, "api": rng(0, 6)},
 			{"n": {1, 2}, "L": {1}, "lens": rng(0, 3), "opt": {16}, "enc": {1}, "loaded": {2}, "lq": {1}, "api": {0, 1, 2, 4, 5}},
 			{"n": {2}, "L": {2}, "lens": rng(0, 8), "opt": {16, 9}, "enc": {1, 4}, "loaded": {0, 1}, "lq": {2}, "api": {0, 1, 2, 4}},
-			{"n": {2}, "L": {1}, "lens": rng(0, 3), "opt": {9}, "enc": {1}, "loaded": {0, 1}, "lq": {1}, "api": {3, 5, 6}, "alpha": {1}}},
+			{"n": {2}, "L": {1}, "lens": rng(0, 3), "opt": {9}, "enc": {1}, "loaded": {0, 1}, "lq": {1}, "api": {3, 5, 6}, "alpha": {1}},
+			{"n": {1, 2}, "L": {1}, "lens": rng(0, 3), "opt": {16, 9}, "enc": {7, 2}, "loaded": {0, 1}, "lq": {1}, "api": {0, 1, 5}}},
 		Thorough: []Grid{{"n": {0, 1}, "L": {2}, "lens": {0, 1, 2}, "opt": optsDistinct, "enc": {1, 0, 2}, "loaded": {0, 1}, "lq": {0, 1, 2}, "api": rng(0, 6)},
+			{"n": {1, 2}, "L": {2}, "lens": rng(0, 8), "opt": {16, 9, 0}, "enc": {7}, "loaded": {0, 1}, "lq": {1, 2}, "api": {0, 1, 3, 5}},
 			{"n": {2}, "L": {2}, "lens": rng(0, 8), "opt": optsDistinct, "enc": {1, 4}, "loaded": {0, 1}, "lq": {1, 2}, "api": {0, 1, 2, 4}},
 			{"n": {3}, "L": {1}, "lens": rng(0, 7), "opt": {16, 9}, "enc": {1}, "loaded": {0, 1}, "lq": {2}, "api": {0, 1, 2, 4}},
 			{"n": {2}, "L": {2}, "lens": rng(0, 8), "opt": {9, 6}, "enc": {1, 2}, "loaded": {0, 1}, "lq": {1, 2}, "api": {3, 5, 6}, "alpha": {1}}},
-		Note: "write-set monitor over every object reachable from the shared *SlimTrie: no read API (Get, GetID, RangeGet, Search, GetI32, Stat, ScanFrom, Marshal, String, NewIter/next) writes to pre-existing shared memory on any path; two interleaved iterators yield what each yields alone"})
+		Note: "write-set monitor over every object reachable from the shared *SlimTrie: no read API (Get, GetID, RangeGet, Search, GetI32, Stat, ScanFrom, Marshal, String, NewIter/next) writes to pre-existing shared memory on any path; two interleaved iterators yield what each yields alone; value kinds: U16, I32, String16 and a reflection-driven *TypeEncoder over a struct (the encoder object is part of the monitored state)"})
 	// ---- C20 ----
 	out = append(out, &HarnessSpec{Name: "l2_alias", Pkg: "trie", Property: "C20", Witness: 1,
 		Quick: []Grid{{"n": {0, 1, 2}, "L": {1}, "lens": rng(0, 3), "opt": optsAll, "part": {0}, "lq": {0}},
-			{"n": {1, 2}, "L": {1}, "lens": rng(0, 3), "opt": {16, 9, 2}, "part": {1, 2}, "lq": {1}}},
+			{"n": {1, 2}, "L": {1}, "lens": rng(0, 3), "opt": {16, 9, 2}, "part": {1, 2}, "lq": {1}},
+			{"n": {1, 2}, "L": {1}, "lens": rng(0, 3), "opt": {16, 9, 0}, "part": {3}, "lq": {1}}},
 		Thorough: []Grid{{"n": {0, 1, 2}, "L": {2}, "lens": rng(0, 8), "opt": optsAll, "part": {0}, "lq": {0}},
 			{"n": {1, 2}, "L": {2}, "lens": rng(0, 8), "opt": optsDistinct, "part": {1, 2}, "lq": {1, 2}},
-			{"n": {3}, "L": {1}, "lens": rng(0, 7), "opt": {16, 9}, "part": {0, 1, 2}, "lq": {1}}},
-		Note: "NewSlimTrie writes to none of keys/values/opts (monitor + equality); Unmarshal neither writes nor retains the input buffer (monitor, heap reachability with the codec stub aliasing pessimistically, answers unchanged after the buffer is overwritten with symbolic bytes); Marshal output is unreachable from the trie and overwriting it changes nothing"})
+			{"n": {3}, "L": {1}, "lens": rng(0, 7), "opt": {16, 9}, "part": {0, 1, 2}, "lq": {1}},
+			{"n": {1, 2}, "L": {2}, "lens": rng(0, 8), "opt": {16, 9, 0, 2}, "part": {3}, "lq": {1}},
+			{"n": {3}, "L": {1}, "lens": rng(0, 7), "opt": {16}, "part": {3}, "lq": {1}}},
+		Note: "NewSlimTrie writes to none of keys/values/opts (monitor + equality); Unmarshal neither writes nor retains the input buffer (monitor, heap reachability with the codec stub aliasing pessimistically, answers unchanged after the buffer is overwritten with symbolic bytes); Marshal output is unreachable from the trie and overwriting it changes nothing; caller-owned []byte values (encode.Bytes) are not reachable from the trie and overwriting them after the build changes no answer"})
 	// ---- C12 ----
 	out = append(out, &HarnessSpec{Name: "ix_exact", Pkg: "index", Property: "C12", Witness: 1,
 		Quick: []Grid{{"n": {0, 1}, "L": {2}, "lens": {0, 1, 2}, "mode": {0, 1}, "lq": {0, 1, 2, 3}},
@@ -417,11 +438,13 @@ func apiSpecs() []*HarnessSpec {
 		Quick: []Grid{{"type": rng(0, 5), "n": {1}, "words": rng(0, 5), "pw": rng(0, 5), "loaded": {0}},
 			{"type": {0, 1}, "n": {1}, "words": {0, 2, 5}, "pw": {0, 2, 5}, "loaded": {1}},
 			{"type": {0, 4}, "n": {2}, "words": {0, 6, 7, 12, 30, 35}, "pw": {0, 1, 5}, "loaded": {0}},
-			{"type": {1}, "n": {3}, "words": {0, 42, 43, 5*36 + 4*6 + 0}, "pw": {0, 1, 4}, "loaded": {0, 1}}},
+			{"type": {1}, "n": {3}, "words": {0, 42, 43, 5*36 + 4*6 + 0}, "pw": {0, 1, 4}, "loaded": {0, 1}},
+			{"type": {6}, "n": {1, 2}, "words": {0, 6, 7, 30}, "pw": {0, 1, 5}, "loaded": {0, 1}}},
 		Thorough: []Grid{{"type": rng(0, 5), "n": {1, 2}, "words": rng(0, 35), "pw": rng(0, 5), "loaded": {0}},
+			{"type": {6}, "n": {1, 2, 3}, "words": rng(0, 35), "pw": rng(0, 5), "loaded": {0, 1}},
 			{"type": {0, 1}, "n": {1, 2}, "words": rng(0, 35), "pw": rng(0, 5), "loaded": {1}},
 			{"type": {1, 4}, "n": {3}, "words": rng(0, 215), "pw": rng(0, 5), "loaded": {0}}},
-		Note: "typed arrays U16..I64 from symbolic ascending indexes (enumerated 64-bit word, symbolic bit) and symbolic elements: typed Get, raw GetBytes and the generic Array agree with the oracle for a symbolic probe inside the bitmap span; round trip through the codec stub into the typed and the generic type"})
+		Note: "typed arrays U16..I64 from symbolic ascending indexes (enumerated 64-bit word, symbolic bit) and symbolic elements: typed Get, raw GetBytes and the generic Array agree with the oracle for a symbolic probe inside the bitmap span; round trip through the codec stub into the typed and the generic type; struct elements with alignment padding through New / NewEmpty + load"})
 	out = append(out, &HarnessSpec{Name: "arr_invalid", Pkg: "array", Property: "C16", Witness: 1,
 		Quick:    []Grid{{"n": {0, 1, 2, 3}, "words": {0, 1, 6, 7, 42}, "delta": {0}}, {"n": {0, 1, 2}, "words": {0, 7}, "delta": {-2, -1, 1, 2}}},
 		Thorough: []Grid{{"n": {0, 1, 2, 3}, "words": rng(0, 43), "delta": {0}}, {"n": {4}, "words": {0, 1, 7, 259, 1295}, "delta": {0}}, {"n": {0, 1, 2, 3}, "words": {0, 7}, "delta": {-3, -2, -1, 1, 2, 3}}},
@@ -449,8 +472,8 @@ func apiSpecs() []*HarnessSpec {
 		Note: "symbolic key set -> writer model G.1 (u32 children with symbolic upper halves / 16-bit bitmap children / extended bitmaps / steps on leaves; header 1.0.0, 0.5.8, 0.5.9) -> three pbcmpl sections -> real Unmarshal (version dispatch, before000510ToNewChildrenArray, creator) -> Get/RangeGet/Search on every key; unchanged after the buffer is overwritten"})
 	out = append(out, &HarnessSpec{Name: "l2_legacy0510", Pkg: "trie", Property: "C06", Witness: 1,
 		Quick: []Grid{{"n": {0, 1}, "L": {2}, "lens": {0, 1, 2}, "opt": {0, 2, 8, 1, 9}, "enc": {1, 0}, "hdr": {0, 1}, "lq": {1, 2}},
-			{"n": {2}, "L": {2}, "lens": rng(0, 8), "opt": {0, 2, 8}, "enc": {1}, "hdr": {0}, "lq": {2}},
-			{"n": {2}, "L": {1}, "lens": rng(0, 3), "opt": {8}, "enc": {1}, "hdr": {0}, "lq": {1}, "alpha": {1}},
+			{"n": {2}, "L": {2}, "lens": rng(0, 8), "opt": {0, 2, 8}, "enc": {1}, "hdr": {0, 1}, "lq": {2}},
+			{"n": {2}, "L": {1}, "lens": rng(0, 3), "opt": {8}, "enc": {1}, "hdr": {0, 1}, "lq": {1}, "alpha": {1}},
 			{"n": {3}, "L": {1}, "lens": rng(0, 7), "opt": {2}, "enc": {1}, "hdr": {0}, "lq": {2}}},
 		Thorough: []Grid{{"n": {0, 1, 2}, "L": {2}, "lens": rng(0, 8), "opt": {0, 2, 8, 1, 3, 9}, "enc": {1, 0, 4}, "hdr": {0, 1}, "lq": {0, 1, 2, 3}},
 			{"n": {2}, "L": {2}, "lens": rng(0, 8), "opt": {8, 9}, "enc": {1}, "hdr": {0}, "lq": {1, 2}, "alpha": {1}},
